@@ -22,7 +22,7 @@ RULE = (
     "inserts in reverse; appends with interleaved removals) that end in the same sequence; in 40% of the pairs the two "
     "files are of different classes of the same family (framework class, a subclass, a sibling, a sub-subclass); "
     "compared with the model. reread: (register definitions, content) read twice -> the two files must be equal and "
-    "write identical output; a third file with the same elements is built through the API and, when it compares equal, must write the same output too. non-trivial = pair with same-family right-hand side of length >= 1; distinct by full case."
+    "write identical output; a third file with the same elements is built through the API and, when it compares equal, must write the same output too. history (objects with a past): in 30% of the pairs one or both files are first built holding OTHER values at one to three positions, compared once (both ways, files and containers), and then brought to the sequence of the case by in-place edits of the elements (assignment into element.data[k], or a new list through the data setter) before the comparisons that are observed - the model is given the final sequences only; in every reread case a further file (the one read, or one built through the API) goes through one or two rounds of earlier uses (written once or twice, written element by element, compared with a twin) each followed by in-place edits of one to three values (element.data[k] = v directly, through a user-defined property whose setter assigns into self.data[k], a new list through the data setter, a new line for a default register; sometimes edited back to the old values) and is then compared with a file freshly built from copies of the values it now holds: when the two compare equal they must write identical output. non-trivial = pair with same-family right-hand side of length >= 1; distinct by full case."
 )
 ASSUMPTIONS = [
     "element classes of the harness use the isinstance(o, self.__class__) idiom of cfinterface.Register",
@@ -87,14 +87,20 @@ def file_class(F, which, cache={}):
     return cache[key]
 
 
-def build(fam, seq, types=None, route="append", fcls="base"):
-    """route: how the same final sequence is reached through the container API"""
+def build(fam, seq, types=None, route="append", fcls="base", made=None):
+    """route: how the same final sequence is reached through the container API;
+    made: a list that receives the elements created for seq, in order"""
     classes, D, F, Dflt = types or mk_classes(fam)
     F = file_class(F, fcls)
     ph = Dflt(data="")
     data = D(ph)
     # class id 9: a blank default element (what heads every container; free to occur anywhere else as well)
-    mk = lambda c, vals: Dflt(data="") if c == BLANK else classes[c](data=[codec.dec_val(v) for v in vals])
+    def mk(c, vals):
+        e = Dflt(data="") if c == BLANK else classes[c](data=[codec.dec_val(v) for v in vals])
+        if made is not None:
+            made.append(e)
+        return e
+
     if route == "remove_sole_first":
         data.remove(ph)  # removing the sole element leaves the chain as it is
         getattr(data, {"register": "remove_registers_of_type", "block": "remove_blocks_of_type", "section": "remove_sections_of_type"}[fam])(Dflt)
@@ -102,6 +108,8 @@ def build(fam, seq, types=None, route="append", fcls="base"):
         # append the first, then insert the others after it from the back
         for c, vals in reversed(seq):
             data.add_after(ph, mk(c, vals))
+        if made is not None:
+            made.reverse()
     elif route == "extra_then_remove":
         for i, (c, vals) in enumerate(seq):
             junk = classes[0](data=[{"zz": i}])
@@ -132,6 +140,142 @@ def foreign(kind, fam, fa=None, types=None, case=None):
         return "x"
     other = {"register": "block", "block": "section", "section": "register"}[fam]
     return build(other, [])
+
+
+# ------------------------------------------------------------------ objects with a past
+def with_old(seq, hist):
+    """the sequence a side is FIRST built with: other values at the positions of hist"""
+    seq = json.loads(json.dumps(seq))
+    for i, k, old in hist:
+        if k is None:
+            seq[i][1] = old
+        else:
+            seq[i][1][k] = old
+    return seq
+
+
+def bring_up_to_date(made, seq, hist, style):
+    """in-place edits of the elements created for with_old(seq, hist) that leave them holding seq"""
+    for n, (i, k, _old) in enumerate(hist):
+        final = [codec.dec_val(v) for v in seq[i][1]]
+        if k is None or style == "setter" or (style == "mixed" and n % 2):
+            made[i].data = final
+        else:
+            made[i].data[k] = final[k]
+
+
+def rand_hist(rng, seq):
+    idx = [i for i, (c, _) in enumerate(seq) if c != BLANK]
+    if not idx:
+        return None
+    hist = []
+    for i in sorted(rng.sample(idx, min(len(idx), rng.randrange(1, 4)))):
+        vals = seq[i][1]
+        if vals:
+            k = rng.randrange(len(vals))
+            hist.append([i, k, mutate_value(rng, vals[k])])
+        else:
+            hist.append([i, None, [{"i": 1}]])
+    return hist
+
+
+NEW_VALUES = {"int": [0, 7, -3, 42], "flt": [1.5, 0.25, 12.0, -2.5], "lit": ["ab", "x", "a b"], "date": [(2021, 2, 3), (1999, 12, 31)]}
+WARMUPS = ["write", "write", "write_twice", "elementwise", "compare", "write_and_compare", "none"]
+
+
+def col_property(k):
+    """the usual user-defined property of a register type: the setter assigns into self.data[k]"""
+    return property(lambda self: self.data[k], lambda self, v: self.data.__setitem__(k, v))
+
+
+def history_check(case, RF, classes, x, written):
+    """a file with a past (written / compared earlier, values edited in place since) against a file
+    freshly built from copies of the values it now holds: equal files write identical output"""
+    import copy
+    from datetime import datetime
+    from cfinterface.data.registerdata import RegisterData
+    from cfinterface.components.defaultregister import DefaultRegister
+
+    rng = random.Random(case.get("hist", 0))
+
+    def fresh(els):
+        data = None
+        for e in els:
+            ne = type(e)(data=copy.deepcopy(e.data))
+            if data is None:
+                data = RegisterData(ne)
+            else:
+                data.append(ne)
+        return RF(data=data)
+
+    base = rng.choice(["read", "built"])
+    f = RF.read(x)
+    if base == "built":
+        f = fresh(fsup.capped(f.data, 2000))
+    els = fsup.capped(f.data, 2000)
+    typed = [j for j, e in enumerate(els) if not isinstance(e, DefaultRegister) and isinstance(e.data, list) and len(e.data) > 0 and type(e) in classes]
+    dflt = [j for j, e in enumerate(els) if j > 0 and isinstance(e, DefaultRegister) and isinstance(e.data, str)]
+    steps = []
+    for _round in range(rng.randrange(1, 3)):
+        warm = rng.choice(WARMUPS)
+        steps.append("use:" + warm)
+        if warm in ("write", "write_twice", "write_and_compare"):
+            written(f)
+        if warm == "write_twice":
+            written(f)
+        if warm == "elementwise":
+            st = rng.choice(["", "TEXT"])
+            for e in els:
+                try:
+                    e.write(StringIO(), st)
+                except Exception:
+                    pass
+        if warm in ("compare", "write_and_compare"):
+            twin = fresh(els)
+            bool(f == twin), bool(twin == f), bool(f.data == twin.data), bool(f != twin)
+        pool = typed if typed and (not dflt or rng.random() < 0.85) else dflt
+        undo = []
+        for j in rng.sample(pool, min(len(pool), rng.randrange(1, 4))):
+            e = els[j]
+            if isinstance(e, DefaultRegister):
+                undo.append((j, None, e.data))
+                e.data = "& edited %d\n" % j
+                steps.append(f"element#{j}.data = {e.data!r}")
+                continue
+            k = rng.randrange(len(e.data))
+            kind = case["regs"][classes.index(type(e))]["fields"][k]["k"]
+            cur = e.data[k]
+            cands = [datetime(*v) if kind == "date" else v for v in NEW_VALUES[kind]]
+            cands = [v for v in cands if cur is None or v != cur]
+            v = None if (cur is not None and rng.random() < 0.15) else rng.choice(cands)
+            undo.append((j, k, cur))
+            style = rng.choice(["item", "property", "setter"])
+            if style == "item":
+                e.data[k] = v
+            elif style == "property":
+                name = f"col{k}"
+                if name not in type(e).__dict__:
+                    setattr(type(e), name, col_property(k))
+                setattr(e, name, v)
+            else:
+                d = list(e.data)
+                d[k] = v
+                e.data = d
+            steps.append(f"element#{j} ({type(e).__name__}) column {k}: {cur!r} -> {v!r} [{style}]")
+        if undo and rng.random() < 0.2:
+            for j, k, old in undo:
+                if k is None:
+                    els[j].data = old
+                else:
+                    els[j].data[k] = old
+            steps.append("edited back to the old values [item]")
+    g = fresh(els)
+    if not (bool(f == g) and bool(g == f)):
+        return True, None
+    wf, wg = written(f), written(g)
+    if wf == wg:
+        return True, None
+    return False, {"file": base, "steps": steps, "it_writes": wf[1], "fresh_equal_file_writes": wg[1]}
 
 
 def run_impl(case):
@@ -183,10 +327,13 @@ def run_impl(case):
                     data4.append(ne)
             f4 = RF(data=data4)
             flt_ok = (written(f1) == written(f4)) if bool(f1 == f4) and bool(f4 == f1) else True
-            return {"checks": {"equal_file_holding_whole_numbers_as_floats_writes_identical_output": flt_ok, "equal_file_built_through_the_api_writes_identical_output": api_ok, "read_twice_files_equal": bool(f1 == f2), "read_twice_reverse_equal": bool(f2 == f1), "read_twice_not_unequal": not (f1 != f2), "read_twice_data_equal": bool(f1.data == f2.data), "equal_files_write_identical_output": written(f1) == written(f2)}}
+            hist_ok, hist_detail = history_check(case, RF, classes, x, written)
+            return {**({"history": hist_detail} if hist_detail else {}), "checks": {"file_used_before_and_edited_in_place_writes_like_a_freshly_built_equal_file": hist_ok, "equal_file_holding_whole_numbers_as_floats_writes_identical_output": flt_ok, "equal_file_built_through_the_api_writes_identical_output": api_ok, "read_twice_files_equal": bool(f1 == f2), "read_twice_reverse_equal": bool(f2 == f1), "read_twice_not_unequal": not (f1 != f2), "read_twice_data_equal": bool(f1.data == f2.data), "equal_files_write_identical_output": written(f1) == written(f2)}}
         fam = case["family"]
         types = mk_classes(fam)
-        fa = build(fam, case["a"], types, case.get("route_a", "append"), case.get("fcls_a", "base"))
+        ha, hb = case.get("hist_a"), case.get("hist_b") if case["b"] is not None else None
+        made_a, made_b = [], []
+        fa = build(fam, with_old(case["a"], ha) if ha else case["a"], types, case.get("route_a", "append"), case.get("fcls_a", "base"), made_a)
         if case["b"] is None:
             rhs = foreign(case["foreign"], fam, fa, types, case)
             if case["foreign"] in ("own_container", "twin_container", "holder"):
@@ -194,8 +341,16 @@ def run_impl(case):
             else:
                 rdata = rhs.data if hasattr(rhs, "data") else rhs
         else:
-            rhs = build(fam, case["b"], types, case.get("route_b", "append"), case.get("fcls_b", "base"))
+            rhs = build(fam, with_old(case["b"], hb) if hb else case["b"], types, case.get("route_b", "append"), case.get("fcls_b", "base"), made_b)
             rdata = rhs.data
+        if ha or hb:
+            # the objects have a past: they held other values, were compared, and were then edited in place;
+            # what is observed below is judged on the sequences they hold now
+            bool(fa.data == rdata), bool(rdata == fa.data), bool(fa == rhs), bool(rhs == fa), bool(fa != rhs), bool(fa == fa)
+            if ha:
+                bring_up_to_date(made_a, case["a"], ha, case.get("hist_style", "item"))
+            if hb:
+                bring_up_to_date(made_b, case["b"], hb, case.get("hist_style", "item"))
         return {"ab_data": bool(fa.data == rdata), "ba_data": bool(rdata == fa.data), "ab_file": bool(fa == rhs), "ba_file": bool(rhs == fa), "ne_file": bool(fa != rhs), "refl_a": bool(fa == fa) and bool(fa.data == fa.data)}
     except Exception as e:
         return codec.enc_exc(e)
@@ -220,8 +375,10 @@ def judge(case, obs, resp):
         return {"status": "oracle", "why": f"comparison raised {obs['exc']}: {obs.get('msg')}"}
     if not resp["holds"]:
         if case["shape"] == "reread":
-            return {"status": "oracle", "why": f"reading {codec.dec_str(case['content'])!r} twice: {resp.get('failed')} is false"}
-        return {"status": "oracle", "why": f"a={case['a']} b={case['b'] if case['b'] is not None else case.get('foreign')}: got {obs}; required {resp.get('model')}"}
+            more = f"; history: {obs['history']}" if isinstance(obs, dict) and obs.get("history") else ""
+            return {"status": "oracle", "why": f"reading {codec.dec_str(case['content'])!r} twice: {resp.get('failed')} is false{more}"}
+        past = "".join(f"; {side} first held {with_old(case[side], case['hist_' + side])}, was compared, then edited in place ({case.get('hist_style', 'item')}) to the sequence shown" for side in ("a", "b") if case.get("hist_" + side) and case[side] is not None)
+        return {"status": "oracle", "why": f"a={case['a']} b={case['b'] if case['b'] is not None else case.get('foreign')}: got {obs}; required {resp.get('model')}{past}"}
     if not resp["agree"]:
         return {"status": "corr", "why": "model and implementation disagree"}
     return {"status": "ok", "why": ""}
@@ -236,6 +393,7 @@ def features(case, obs):
         return ["shape=reread"]
     f = ["shape=pair", f"family={case['family']}", f"len_a={len(case['a'])}", "relation=" + case.get("rel", "?"), "route_a=" + case.get("route_a", "append"), "route_b=" + case.get("route_b", "append"),
          "file_classes=" + ("same" if case.get("fcls_a", "base") == case.get("fcls_b", "base") else "different")]
+    f.append("history=" + ("+".join(x for x in ("a", "b") if case.get("hist_" + x)) or "none"))
     if isinstance(obs, dict) and "ab_file" in obs:
         f.append("equal" if obs["ab_file"] else "unequal")
     return f
@@ -326,12 +484,20 @@ def random_pair(rng):
         case["fcls_a"], case["fcls_b"] = rng.choice(FILE_CLASSES), rng.choice(FILE_CLASSES)
     if fk:
         case["foreign"] = fk
+    if rng.random() < 0.3:
+        # objects with a past: built with other values, compared, then edited in place to the sequences above
+        sides = rng.choice([["a"], ["b"], ["a", "b"]])
+        case["hist_style"] = rng.choice(["item", "setter", "mixed"])
+        for side in sides:
+            h = rand_hist(rng, case[side]) if case[side] is not None else None
+            if h:
+                case["hist_" + side] = h
     return case
 
 
 def random_reread(rng):
     c = c04.random_case(rng)
-    return {"shape": "reread", "regs": c["regs"], "content": c["content"]}
+    return {"shape": "reread", "regs": c["regs"], "content": c["content"], "hist": rng.randrange(1 << 30)}
 
 
 def corpus_cases():
@@ -374,6 +540,11 @@ def shrinks(case):
             for i in range(n):
                 yield {**case, "regs": case["regs"][:i] + case["regs"][i + 1 :]}
         return
+    for side in ("a", "b"):
+        if case.get("hist_" + side):
+            yield {k: v for k, v in case.items() if k != "hist_" + side}
+    if case.get("hist_a") or case.get("hist_b"):
+        return  # positions of a history refer to the sequences as they are
     if case.get("fcls_a", "base") != "base" and case.get("fcls_b", "base") != "base":
         yield {**case, "fcls_a": "base"}
         yield {**case, "fcls_b": "base"}
